@@ -3128,20 +3128,27 @@ impl<'ctxt, R: ImportResolver, C: Cache> VirtualMachine<'ctxt, R, C> {
                 let record1 = cont1.into_opt();
                 let record2 = cont2.into_opt();
 
+                // As for `record/fields`, `record/map` or `==`, empty optional fields aren't
+                // considered to be part of a record: we ignore them. Otherwise, an empty optional
+                // field (typically left in a value by a record contract applied earlier) would
+                // end up in the center and wrongly count as a present field.
+                let non_empty_fields = |record: Option<&RecordData>| -> IndexMap<LocIdent, Field> {
+                    record
+                        .map(|r| {
+                            r.fields
+                                .iter()
+                                .filter(|(_, field)| !field.is_empty_optional())
+                                .map(|(id, field)| (*id, field.clone()))
+                                .collect()
+                        })
+                        .unwrap_or_default()
+                };
+
                 let split::SplitResult {
                     left,
                     center,
                     right,
-                } = split::split_ref(
-                    record1
-                        .as_ref()
-                        .map(|r| &r.fields)
-                        .unwrap_or(&Default::default()),
-                    record2
-                        .as_ref()
-                        .map(|r| &r.fields)
-                        .unwrap_or(&Default::default()),
-                );
+                } = split::split(non_empty_fields(record1), non_empty_fields(record2));
 
                 let left_only = NickelValue::record_posless(RecordData {
                     fields: left,
